@@ -142,6 +142,9 @@ fn operands() -> Vec<Term> {
         // neighbouring integers that no f64 tells apart
         int(9223372036854775806), int(9007199254740993), int(9007199254740992), var("vm1", "-9223372036854775807"),
         // exponent spellings and halves (rounding away from zero, both signs)
+        // list operands whose elements are spelled with escapes or braces, a malformed list, and
+        // strings that look like integers beyond i64
+        var("vle", "a\\ b c"), var("vlb", "{a b} c"), var("vbad", "{"), var("vbig", "9223372036854775808"), var("vhex", "0xFFFFFFFFFFFFFFFF"),
         flt("1E3"), var("ve", "1.5E2"), strq("1E2"), flt("2.5"), flt("1.5"), var("vh", "-2.5"), var("vh2", "-0.5"),
     ]
 }
